@@ -358,3 +358,102 @@ def check_serde_hint_confined(ctx, res, config="all"):
     if n < 1:
         res.fail(Finding("R7-anchor-lost", "visit_seq", "no visit_seq body using a size hint found", file="src/biguint/serde.rs", line=0))
     res.clause("R7: in the serde visitors the size hint flows only into Vec::with_capacity (forward taint incl. control dependence): it cannot truncate or alter the value")
+
+
+def check_serde_declared_length(ctx, res, config="all"):
+    """Serialize for BigUint (64-bit digits): the length announced to serialize_seq equals the number of serialize_element calls
+    that follow, for every digit count and every zero/non-zero pattern of the top digit's halves.  The announced length is
+    *evaluated* from its MIR definition; the emitted count is per-iteration calls x digits + the tail calls whose controlling
+    conditions (evaluated the same way) hold."""
+    from . import r4
+    from .r1 import _base_of_local
+
+    facts = ctx.facts(config)
+    bs = facts.find(trait="serde::Serialize", self_ty="biguint::BigUint", name="serialize")
+    if len(bs) != 1:
+        res.fail(Finding("R7-anchor-lost", "Serialize for BigUint", "impl not found", file="src/biguint/serde.rs", line=0))
+        return
+    b = bs[0]
+    live = b.live_blocks()
+    seqs = [(i, t) for i, t in b.calls() if callee_name(t) == "serialize_seq" and i in live]
+    elems = [(i, t) for i, t in b.calls() if callee_name(t) == "serialize_element" and i in live]
+    lens = [(i, t) for i, t in b.calls() if callee_name(t) == "len" and i in live]
+    iters = [(i, t) for i, t in b.calls() if callee_name(t) == "into_iter" and i in live]
+    last_l = [l for l in range(len(b.locals)) if b.locals[l].get("name") == "last"]
+    if len(seqs) != 1 or not elems or len(lens) != 1 or len(iters) != 1 or len(last_l) != 1:
+        res.note("R7-serde-declared-length: Serialize for BigUint has a shape the rule does not model (%d serialize_seq, %d len, %d loops, %d `last`) - not decided" % (len(seqs), len(lens), len(iters), len(last_l)))
+        res.clause("R7: announced sequence length = number of emitted elements (not decided: unmodelled shape)")
+        return
+    # the loop runs over the slice whose len() is announced
+    def base_of(op):
+        pl = core.op_place(op)
+        return _base_of_local(b, pl["local"]) if pl else None
+
+    same_slice = base_of(lens[0][1]["args"][0]) == base_of(iters[0][1]["args"][0])
+    # the announced length operand: serialize_seq(.., Some(len))
+    opt = core.op_local(seqs[0][1]["args"][1])
+    ds = b.defs().get(opt, []) if opt is not None else []
+    if not (len(ds) == 1 and ds[0][0] == "assign" and ds[0][3]["rv"]["k"] == "aggregate" and ds[0][3]["rv"]["ops"]):
+        res.note("R7-serde-declared-length: the length argument is not Some(expr) - not decided")
+        res.clause("R7: announced sequence length = number of emitted elements (not decided)")
+        return
+    len_op = ds[0][3]["rv"]["ops"][0]
+
+    def in_loop(i):
+        return any(i in b.reachable(s_) for s_ in b.succ(i))
+
+    loop_calls = [i for i, t in elems if in_loop(i)]
+    tail_calls = [i for i, t in elems if not in_loop(i)]
+
+    def emitted_tail(env):
+        cnt = 0
+        for i in tail_calls:
+            ok = True
+            for j, tt in b.terms("switch"):
+                if j not in live or j == i or in_loop(j) or not b.block_dominates(j, i):
+                    continue
+                dl = core.op_local(tt["discr"])
+                dd = b.defs().get(dl, []) if dl is not None else []
+                if len(dd) == 1 and dd[0][0] == "assign" and dd[0][3]["rv"]["k"] == "discriminant":
+                    continue  # `?` and Option matches
+                v = r4.eval_int(b, tt["discr"], env)
+                taken = None
+                for val, tgt in tt["targets"]:
+                    if int(v) == val:
+                        taken = tgt
+                if taken is None:
+                    taken = tt.get("otherwise")
+                # is the call only reachable through the edge that is taken?
+                edges = [tgt for val, tgt in tt["targets"]] + ([tt["otherwise"]] if tt.get("otherwise") is not None else [])
+                through = [e for e in edges if b.edge_dominates((j, e), i)]
+                if through and taken not in through:
+                    ok = False
+            if ok:
+                cnt += 1
+        return cnt
+
+    bad = None
+    cases = 0
+    try:
+        for n in (0, 1, 2, 5):
+            for lo in (0, 9):
+                for hi in (0, 3):
+                    env = {lens[0][1]["dest"]["local"]: n, last_l[0]: (hi << 32) | lo}
+                    announced = r4.eval_int(b, len_op, env)
+                    if isinstance(announced, tuple):
+                        announced = announced[0]
+                    emitted = len(loop_calls) * n + emitted_tail(env)
+                    cases += 1
+                    if announced != emitted and bad is None:
+                        bad = (n, lo, hi, announced, emitted)
+    except r4.CantEval as e:
+        res.note("R7-serde-declared-length: the announced length cannot be evaluated from MIR (%s) - not decided" % e)
+        res.clause("R7: announced sequence length = number of emitted elements (not decided)")
+        return
+    if not same_slice:
+        res.fail(Finding("R7-serde-declared-length", "Serialize for BigUint", "the element loop does not run over the slice whose len() is announced", b))
+    elif bad:
+        res.fail(Finding("R7-serde-declared-length", "Serialize for BigUint", "announced length %d but %d elements are emitted for %d full digits and a top digit with low half %s, high half %s: a length-prefixed format drops or misreads digits" % (bad[3], bad[4], bad[0], "zero" if not bad[1] else "non-zero", "zero" if not bad[2] else "non-zero"), b, seqs[0][1]["span"]["line"]))
+    else:
+        res.ok("R7-serde-declared-length", "Serialize for BigUint", {"cases_evaluated": cases, "per_digit_elements": len(loop_calls), "tail_elements": len(tail_calls)})
+    res.clause("R7: the length announced to serialize_seq equals the number of emitted elements for every digit count and top-digit pattern (both evaluated from MIR)")
